@@ -13,7 +13,7 @@ From Coq Require Import Arith.
 From AV Require Import Base.Bytes Base.Outcome Base.Utf8 Base.Radix Hash.HashModel Hash.HashProofs Spec.SpecOps Spec.Versions
   Xml.Lexer Xml.Parser Xml.Serializer Xml.LexerProofs Xml.TablesOk Xml.ParserProofs Xml.ParserCheck Xml.ParserDepth
   Xml.StrictValidDef Xml.StrictValid Xml.Escape Xml.RoundTripValues Xml.RoundTripAttrs Xml.RoundTripLexer Xml.RoundTripElem
-  Xml.RoundTripFile Xml.RoundTripCanonValues.
+  Xml.RoundTripFile Xml.RoundTripCanonValues Xml.Funnel Xml.FunnelParser.
 Open Scope list_scope.
 Open Scope N_scope.
 
@@ -420,6 +420,38 @@ Proof.
   - exact (CO K4).
   - exact NV.
   - exact NAMED.
+Qed.
+
+(* both modes: a lenient load without warnings is a strict load (C08_agree) *)
+Theorem load_canon_both (b : bool) bs t st :
+  load b T tab_el tab_at tab_en check_fn float_parse bs = Val (Ret t st) -> p_warnings st = [] -> knownb T t = false ->
+  forall s, RootCanon s T tab_el tab_at tab_en check_fn float_fmt float_parse (p_version st) t.
+Proof.
+  intros L W KN. destruct b; [exact (load_canon bs t st L KN)|].
+  destruct (load_agree T tab_el tab_at tab_en check_fn float_parse bs) as (A & _).
+  exact (load_canon bs t st (A t st L W) KN).
+Qed.
+
+(* ---------- C01: load -> serialize -> load is the identity, and the second serialization is byte-identical ----------
+   for every accepted input whose load is silent and whose tree is outside the recorded classes; `set_version ... t = t`
+   says the root already carries the canonical xsi:schemaLocation text (ArxmlFile::serialize rewrites it otherwise) *)
+Theorem reload_identity (b : bool) bs t st :
+  load b T tab_el tab_at tab_en check_fn float_parse bs = Val (Ret t st) -> p_warnings st = [] -> knownb T t = false ->
+  Serializer.set_version T tab_at check_fn (p_version st) t = Val t ->
+  forall sa, exists bs',
+    serialize_file T tab_el tab_at tab_en check_fn float_fmt (p_version st) sa t = Val bs' /\
+    exists st', load b T tab_el tab_at tab_en check_fn float_parse bs' = Val (Ret t st') /\
+      p_warnings st' = [] /\ p_version st' = p_version st /\ p_standalone st' = sa /\
+      serialize_file T tab_el tab_at tab_en check_fn float_fmt (p_version st') sa t = Val bs'.
+Proof.
+  intros L W KN SV sa. pose proof (load_canon_both b bs t st L W KN b) as RC.
+  destruct (root_ser_total b T tab_el tab_at tab_en check_fn float_fmt float_parse (p_version st) t RC) as (body & SB).
+  assert (SF : serialize_file T tab_el tab_at tab_en check_fn float_fmt (p_version st) sa t = Val (xml_header sa ++ body)).
+  { unfold serialize_file. rewrite SV. cbn [bind]. rewrite SB. reflexivity. }
+  exists (xml_header sa ++ body). split; [exact SF|].
+  destruct (serialize_load_roundtrip b T tab_el tab_at tab_en check_fn float_fmt float_parse (p_version st) t sa _ RC SV SF)
+    as (st' & L' & W' & V' & S').
+  exists st'. repeat split; try assumption. rewrite V'. exact SF.
 Qed.
 
 End CanonLoad.
